@@ -1,9 +1,727 @@
-use concordium_contracts_common::*;
+//! C16 harness: contract-side binary encodings (decode arbitrary bytes: accept/reject, consumed,
+//! re-encoding, allocation), textual forms (print, parse, parse(print)), checked arithmetic.
+//! One JSON object per line; every implementation call under `guarded`.
+use concordium_contracts_common::{schema::SizeLength, *};
+use hlib::{guarded, hex, quiet_panics, Rng};
+use serde_json::{json, Value};
+use std::alloc::{GlobalAlloc, Layout, System};
+use std::collections::{BTreeMap, BTreeSet};
 use std::str::FromStr;
+use std::sync::atomic::{AtomicBool, AtomicUsize, Ordering};
+
+// ------------------------------------------------------------------ counting allocator
+// Records the largest single request and the total requested while enabled.  Requests above
+// HUGE are recorded and then served from a block of HUGE bytes (the decoders under test never
+// write more elements than the input has bytes, and inputs are far smaller than HUGE), so an
+// unbounded `with_capacity(len)` becomes a measured value instead of an abort.
+struct Counting;
+static ON: AtomicBool = AtomicBool::new(false);
+static MAXREQ: AtomicUsize = AtomicUsize::new(0);
+static TOTAL: AtomicUsize = AtomicUsize::new(0);
+const HUGE: usize = 1 << 26;
+static CLAMPED: [AtomicUsize; 8] = [
+    AtomicUsize::new(0), AtomicUsize::new(0), AtomicUsize::new(0), AtomicUsize::new(0),
+    AtomicUsize::new(0), AtomicUsize::new(0), AtomicUsize::new(0), AtomicUsize::new(0)];
+unsafe impl GlobalAlloc for Counting {
+    unsafe fn alloc(&self, l: Layout) -> *mut u8 {
+        if ON.load(Ordering::Relaxed) {
+            MAXREQ.fetch_max(l.size(), Ordering::Relaxed);
+            TOTAL.fetch_add(l.size(), Ordering::Relaxed);
+            if l.size() > HUGE {
+                let p = System.alloc(Layout::from_size_align_unchecked(HUGE, 64));
+                for c in CLAMPED.iter() {
+                    if c.compare_exchange(0, p as usize, Ordering::Relaxed, Ordering::Relaxed).is_ok() { break; }
+                }
+                return p;
+            }
+        }
+        System.alloc(l)
+    }
+    unsafe fn dealloc(&self, p: *mut u8, l: Layout) {
+        if l.size() > HUGE {
+            for c in CLAMPED.iter() {
+                if c.compare_exchange(p as usize, 0, Ordering::Relaxed, Ordering::Relaxed).is_ok() {
+                    System.dealloc(p, Layout::from_size_align_unchecked(HUGE, 64));
+                    return;
+                }
+            }
+        }
+        System.dealloc(p, l)
+    }
+    unsafe fn realloc(&self, p: *mut u8, l: Layout, new_size: usize) -> *mut u8 {
+        if ON.load(Ordering::Relaxed) {
+            MAXREQ.fetch_max(new_size, Ordering::Relaxed);
+            TOTAL.fetch_add(new_size.saturating_sub(l.size()), Ordering::Relaxed);
+        }
+        if l.size() > HUGE || new_size > HUGE {
+            // route through alloc/dealloc so that clamped blocks are handled
+            let nl = Layout::from_size_align_unchecked(new_size, l.align());
+            let np = self.alloc(nl);
+            if !np.is_null() {
+                std::ptr::copy_nonoverlapping(p, np, l.size().min(new_size).min(HUGE));
+                self.dealloc(p, l);
+            }
+            return np;
+        }
+        System.realloc(p, l, new_size)
+    }
+}
+#[global_allocator]
+static A: Counting = Counting;
+
+fn measured<T>(f: impl FnOnce() -> T) -> (T, usize, usize) {
+    MAXREQ.store(0, Ordering::Relaxed);
+    TOTAL.store(0, Ordering::Relaxed);
+    ON.store(true, Ordering::Relaxed);
+    let r = f();
+    ON.store(false, Ordering::Relaxed);
+    (r, MAXREQ.load(Ordering::Relaxed), TOTAL.load(Ordering::Relaxed))
+}
+
+// ------------------------------------------------------------------ wrappers for deserial_ctx
+macro_rules! ctx_wrapper {
+    ($name:ident, $inner:ty, $sl:expr, $ord:expr) => {
+        #[derive(PartialEq, Debug)]
+        struct $name($inner);
+        impl Serial for $name {
+            fn serial<W: Write>(&self, out: &mut W) -> Result<(), W::Err> { self.0.serial_ctx($sl, out) }
+        }
+        impl Deserial for $name {
+            fn deserial<R: Read>(source: &mut R) -> ParseResult<Self> {
+                Ok($name(<$inner as DeserialCtx>::deserial_ctx($sl, $ord, source)?))
+            }
+        }
+        impl Gen for $name { fn gen(r: &mut Rng) -> Self { $name(<$inner as Gen>::gen(r)) } }
+    };
+}
+ctx_wrapper!(OrdSet32U32, BTreeSet<u32>, SizeLength::U32, true);
+ctx_wrapper!(OrdSet8U8, BTreeSet<u8>, SizeLength::U8, true);
+ctx_wrapper!(OrdMap8U8U16, BTreeMap<u8, u16>, SizeLength::U8, true);
+ctx_wrapper!(OrdMap16U64Bool, BTreeMap<u64, bool>, SizeLength::U16, true);
+ctx_wrapper!(UnordSet16U16, BTreeSet<u16>, SizeLength::U16, false);
+ctx_wrapper!(UnordMap8U8U8, BTreeMap<u8, u8>, SizeLength::U8, false);
+ctx_wrapper!(Vec8U16, Vec<u16>, SizeLength::U8, false);
+ctx_wrapper!(Vec64U8, Vec<u8>, SizeLength::U64, false);
+ctx_wrapper!(Str16, String, SizeLength::U16, false);
+
+/// direct use of the `*_no_length` functions with an externally given length (one byte)
+#[derive(PartialEq, Debug)]
+struct NoLenSetU16(BTreeSet<u16>);
+impl Serial for NoLenSetU16 {
+    fn serial<W: Write>(&self, out: &mut W) -> Result<(), W::Err> {
+        (self.0.len() as u8).serial(out)?;
+        serial_set_no_length(&self.0, out)
+    }
+}
+impl Deserial for NoLenSetU16 {
+    fn deserial<R: Read>(source: &mut R) -> ParseResult<Self> {
+        let len: u8 = source.get()?;
+        Ok(NoLenSetU16(deserial_set_no_length(source, len as usize)?))
+    }
+}
+impl Gen for NoLenSetU16 { fn gen(r: &mut Rng) -> Self { let n = r.below(6); NoLenSetU16((0..n).map(|_| r.u32_edge() as u16).collect()) } }
+#[derive(PartialEq, Debug)]
+struct NoLenMapU32U8(BTreeMap<u32, u8>);
+impl Serial for NoLenMapU32U8 {
+    fn serial<W: Write>(&self, out: &mut W) -> Result<(), W::Err> {
+        (self.0.len() as u8).serial(out)?;
+        serial_map_no_length(&self.0, out)
+    }
+}
+impl Deserial for NoLenMapU32U8 {
+    fn deserial<R: Read>(source: &mut R) -> ParseResult<Self> {
+        let len: u8 = source.get()?;
+        Ok(NoLenMapU32U8(deserial_map_no_length(source, len as usize)?))
+    }
+}
+impl Gen for NoLenMapU32U8 { fn gen(r: &mut Rng) -> Self { let n = r.below(6); NoLenMapU32U8((0..n).map(|_| (r.u32_edge(), r.next() as u8)).collect()) } }
+
+/// HashSet / HashMap: compared through their sorted contents
+#[derive(PartialEq, Debug)]
+struct HSetU16(HashSet<u16>);
+impl Serial for HSetU16 {
+    fn serial<W: Write>(&self, out: &mut W) -> Result<(), W::Err> {
+        self.0.iter().copied().collect::<BTreeSet<u16>>().serial(out)
+    }
+}
+impl Deserial for HSetU16 { fn deserial<R: Read>(s: &mut R) -> ParseResult<Self> { Ok(HSetU16(s.get()?)) } }
+impl Gen for HSetU16 { fn gen(r: &mut Rng) -> Self { let n = r.below(6); HSetU16((0..n).map(|_| r.u32_edge() as u16).collect()) } }
+#[derive(PartialEq, Debug)]
+struct HMapU8U8(HashMap<u8, u8>);
+impl Serial for HMapU8U8 {
+    fn serial<W: Write>(&self, out: &mut W) -> Result<(), W::Err> {
+        self.0.iter().map(|(a, b)| (*a, *b)).collect::<BTreeMap<u8, u8>>().serial(out)
+    }
+}
+impl Deserial for HMapU8U8 { fn deserial<R: Read>(s: &mut R) -> ParseResult<Self> { Ok(HMapU8U8(s.get()?)) } }
+impl Gen for HMapU8U8 { fn gen(r: &mut Rng) -> Self { let n = r.below(6); HMapU8U8((0..n).map(|_| (r.next() as u8, r.next() as u8)).collect()) } }
+
+/// OwnedPolicy has no PartialEq
+struct Pol(OwnedPolicy);
+impl PartialEq for Pol {
+    fn eq(&self, o: &Self) -> bool {
+        self.0.identity_provider == o.0.identity_provider && self.0.created_at == o.0.created_at
+            && self.0.valid_to == o.0.valid_to && self.0.items == o.0.items
+    }
+}
+impl Serial for Pol { fn serial<W: Write>(&self, out: &mut W) -> Result<(), W::Err> { self.0.serial(out) } }
+impl Deserial for Pol { fn deserial<R: Read>(s: &mut R) -> ParseResult<Self> { Ok(Pol(s.get()?)) } }
+impl Gen for Pol {
+    fn gen(r: &mut Rng) -> Self {
+        let n = r.below(5);
+        Pol(OwnedPolicy {
+            identity_provider: r.u32_edge(),
+            created_at: Timestamp::from_timestamp_millis(r.u64_edge()),
+            valid_to: Timestamp::from_timestamp_millis(r.u64_edge()),
+            items: (0..n).map(|_| { let l = *r.pick(&[0usize, 1, 2, 30, 31]); (AttributeTag(r.next() as u8), AttributeValue::new(&r.bytes(l)).unwrap()) }).collect(),
+        })
+    }
+}
+struct ChainMd(ChainMetadata);
+impl PartialEq for ChainMd { fn eq(&self, o: &Self) -> bool { self.0.slot_time == o.0.slot_time } }
+impl Serial for ChainMd { fn serial<W: Write>(&self, out: &mut W) -> Result<(), W::Err> { self.0.serial(out) } }
+impl Deserial for ChainMd { fn deserial<R: Read>(s: &mut R) -> ParseResult<Self> { Ok(ChainMd(s.get()?)) } }
+impl Gen for ChainMd { fn gen(r: &mut Rng) -> Self { ChainMd(ChainMetadata { slot_time: Timestamp::from_timestamp_millis(r.u64_edge()) }) } }
+
+// ------------------------------------------------------------------ value generators
+trait Gen { fn gen(r: &mut Rng) -> Self; }
+impl Gen for u8 { fn gen(r: &mut Rng) -> Self { let x = r.next() as u8; *r.pick(&[0u8, 1, 2, 127, 128, 254, 255, x]) } }
+impl Gen for u16 { fn gen(r: &mut Rng) -> Self { let x = r.next() as u16; let y = r.next() as u16; *r.pick(&[0u16, 1, 255, 256, 0x7fff, 0x8000, 0xfffe, 0xffff, x, y]) } }
+impl Gen for u32 { fn gen(r: &mut Rng) -> Self { r.u32_edge() } }
+impl Gen for u64 { fn gen(r: &mut Rng) -> Self { r.u64_edge() } }
+impl Gen for u128 {
+    fn gen(r: &mut Rng) -> Self {
+        match r.below(6) {
+            0 => *r.pick(&[0u128, 1, u128::MAX, u128::MAX - 1, 1 << 127, (1 << 127) - 1, 1 << 64, (1 << 64) - 1, 0x0102030405060708090a0b0c0d0e0f10]),
+            1 => 1u128 << r.below(128),
+            2 => (1u128 << r.below(128)).wrapping_sub(1),
+            _ => ((r.next() as u128) << 64) | r.next() as u128,
+        }
+    }
+}
+impl Gen for i8 { fn gen(r: &mut Rng) -> Self { u8::gen(r) as i8 } }
+impl Gen for i16 { fn gen(r: &mut Rng) -> Self { u16::gen(r) as i16 } }
+impl Gen for i32 { fn gen(r: &mut Rng) -> Self { u32::gen(r) as i32 } }
+impl Gen for i64 { fn gen(r: &mut Rng) -> Self { u64::gen(r) as i64 } }
+impl Gen for i128 { fn gen(r: &mut Rng) -> Self { u128::gen(r) as i128 } }
+impl Gen for bool { fn gen(r: &mut Rng) -> Self { r.chance(1, 2) } }
+impl<A: Gen, B: Gen> Gen for (A, B) { fn gen(r: &mut Rng) -> Self { (A::gen(r), B::gen(r)) } }
+impl<A: Gen, B: Gen, C: Gen> Gen for (A, B, C) { fn gen(r: &mut Rng) -> Self { (A::gen(r), B::gen(r), C::gen(r)) } }
+impl<A: Gen> Gen for Option<A> { fn gen(r: &mut Rng) -> Self { if r.chance(1, 3) { None } else { Some(A::gen(r)) } } }
+impl<A: Gen> Gen for Vec<A> { fn gen(r: &mut Rng) -> Self { let n = *r.pick(&[0u64, 1, 2, 3, 5, 9]); (0..n).map(|_| A::gen(r)).collect() } }
+impl<A: Gen + Ord> Gen for BTreeSet<A> { fn gen(r: &mut Rng) -> Self { let n = r.below(7); (0..n).map(|_| A::gen(r)).collect() } }
+impl<A: Gen + Ord, B: Gen> Gen for BTreeMap<A, B> { fn gen(r: &mut Rng) -> Self { let n = r.below(7); (0..n).map(|_| (A::gen(r), B::gen(r))).collect() } }
+impl Gen for String {
+    fn gen(r: &mut Rng) -> Self {
+        let n = r.below(8);
+        (0..n).map(|_| *r.pick(&['a', 'Z', '0', ' ', '\u{7f}', '\u{80}', '\u{e9}', '\u{7ff}', '\u{800}', '\u{d7ff}', '\u{e000}', '\u{ffff}', '\u{10000}', '\u{10ffff}', '\u{20ac}'])).collect()
+    }
+}
+impl Gen for [u8; 32] { fn gen(r: &mut Rng) -> Self { let mut a = [0u8; 32]; for x in a.iter_mut() { *x = r.next() as u8; } if r.chance(1, 8) { a = [0u8; 32]; } if r.chance(1, 8) { a = [255u8; 32]; } a } }
+impl Gen for Amount { fn gen(r: &mut Rng) -> Self { Amount::from_micro_ccd(r.u64_edge()) } }
+impl Gen for Timestamp { fn gen(r: &mut Rng) -> Self { Timestamp::from_timestamp_millis(r.u64_edge()) } }
+impl Gen for Duration { fn gen(r: &mut Rng) -> Self { Duration::from_millis(r.u64_edge()) } }
+impl Gen for AccountAddress { fn gen(r: &mut Rng) -> Self { AccountAddress(<[u8; 32]>::gen(r)) } }
+impl Gen for ContractAddress { fn gen(r: &mut Rng) -> Self { ContractAddress::new(r.u64_edge(), r.u64_edge()) } }
+impl Gen for Address { fn gen(r: &mut Rng) -> Self { if r.chance(1, 2) { Address::Account(AccountAddress::gen(r)) } else { Address::Contract(ContractAddress::gen(r)) } } }
+impl Gen for hashes::Hash { fn gen(r: &mut Rng) -> Self { hashes::Hash::new(<[u8; 32]>::gen(r)) } }
+impl Gen for AccountBalance {
+    fn gen(r: &mut Rng) -> Self {
+        let t = r.u64_edge();
+        let s = match r.below(3) { 0 => t, 1 => 0, _ => r.below(t.wrapping_add(1).max(1)) };
+        let l = match r.below(3) { 0 => t, 1 => 0, _ => r.below(t.wrapping_add(1).max(1)) };
+        AccountBalance::new(Amount::from_micro_ccd(t), Amount::from_micro_ccd(s.min(t)), Amount::from_micro_ccd(l.min(t))).unwrap()
+    }
+}
+impl Gen for ExchangeRate { fn gen(r: &mut Rng) -> Self { ExchangeRate::new_unchecked(r.u64_edge().max(1), r.u64_edge().max(1)) } }
+impl Gen for ExchangeRates { fn gen(r: &mut Rng) -> Self { ExchangeRates { euro_per_energy: ExchangeRate::gen(r), micro_ccd_per_euro: ExchangeRate::gen(r) } } }
+impl Gen for AccountThreshold { fn gen(r: &mut Rng) -> Self { AccountThreshold::try_from(u8::gen(r).max(1)).unwrap() } }
+fn name_chars(r: &mut Rng, n: usize, dot: bool) -> String {
+    (0..n).map(|_| loop { let c = (33 + r.below(94)) as u8 as char; if dot || c != '.' { break c; } }).collect()
+}
+impl Gen for OwnedContractName {
+    fn gen(r: &mut Rng) -> Self { let n = *r.pick(&[0usize, 1, 7, 94, 95]); OwnedContractName::new(format!("init_{}", name_chars(r, n, false))).unwrap() }
+}
+impl Gen for OwnedReceiveName {
+    fn gen(r: &mut Rng) -> Self {
+        let a = *r.pick(&[0usize, 1, 5, 49]); let b = *r.pick(&[0usize, 1, 5, 50]);
+        OwnedReceiveName::new(format!("{}.{}", name_chars(r, a, true), name_chars(r, b, true))).unwrap()
+    }
+}
+impl Gen for OwnedEntrypointName { fn gen(r: &mut Rng) -> Self { let n = *r.pick(&[0usize, 1, 8, 98, 99]); OwnedEntrypointName::new(name_chars(r, n, true)).unwrap() } }
+impl Gen for OwnedParameter { fn gen(r: &mut Rng) -> Self { let n = *r.pick(&[0usize, 1, 3, 17, 300]); OwnedParameter::new_unchecked(r.bytes(n)) } }
+impl Gen for AttributeTag { fn gen(r: &mut Rng) -> Self { AttributeTag(u8::gen(r)) } }
+impl Gen for AttributeValue { fn gen(r: &mut Rng) -> Self { let l = *r.pick(&[0usize, 1, 2, 16, 30, 31]); AttributeValue::new(&r.bytes(l)).unwrap() } }
+
+// ------------------------------------------------------------------ byte side
+fn probe<T: Serial + Deserial>(bs: &[u8]) -> Value {
+    let (res, maxreq, total) = measured(|| guarded(|| {
+        let mut cur = Cursor::new(bs);
+        let v: ParseResult<T> = cur.get();
+        v.map(|v| (cur.offset, to_bytes(&v)))
+    }));
+    match res {
+        Err(_) => json!({"r": "PANIC", "amax": maxreq, "atot": total}),
+        Ok(Err(_)) => json!({"r": null, "amax": maxreq, "atot": total}),
+        Ok(Ok((n, re))) => json!({"r": {"n": n, "re": hex(&re)}, "amax": maxreq, "atot": total}),
+    }
+}
+
+/// mutants of a valid encoding: the malformed stream
+fn mutants(r: &mut Rng, enc: &[u8], out: &mut Vec<(&'static str, Vec<u8>)>) {
+    // truncations
+    if !enc.is_empty() {
+        out.push(("trunc", enc[..r.below(enc.len() as u64) as usize].to_vec()));
+        out.push(("trunc1", enc[..enc.len() - 1].to_vec()));
+    }
+    // trailing bytes (decoders must leave them unread)
+    let tl = 1 + r.below(4) as usize; let mut t = enc.to_vec(); t.extend_from_slice(&r.bytes(tl)); out.push(("trailing", t));
+    if !enc.is_empty() {
+        // bit flips
+        for _ in 0..2 { let mut m = enc.to_vec(); let p = r.below(m.len() as u64) as usize; m[p] ^= 1 << r.below(8); out.push(("bitflip", m)); }
+        // byte set to an extreme value (tags, lengths)
+        let mut m = enc.to_vec(); let p = r.below(m.len().min(6) as u64) as usize; m[p] = *r.pick(&[0u8, 1, 2, 0x7f, 0x80, 0xff]); out.push(("setbyte", m));
+        // inflated length: leading 1, 2, 4 or 8 bytes set to ff
+        let k = *r.pick(&[1usize, 2, 4, 8]); let mut m = enc.to_vec(); for b in m.iter_mut().take(k) { *b = 0xff; } out.push(("inflate", m));
+        // moderately inflated length (decoder must run out of input, not over-allocate)
+        let mut m = enc.to_vec(); m[0] = m[0].wrapping_add(1 + r.below(3) as u8); out.push(("len+", m));
+        // swap two adjacent chunks (produces descending / duplicate keys in collections)
+        if enc.len() >= 4 {
+            let w = *r.pick(&[1usize, 2, 3, 4, 5, 8]);
+            if enc.len() >= 2 * w + 1 {
+                let p = r.below((enc.len() - 2 * w) as u64 + 1) as usize;
+                let mut m = enc.to_vec();
+                for i in 0..w { m.swap(p + i, p + w + i); }
+                out.push(("swap", m));
+                let mut m = enc.to_vec();
+                for i in 0..w { m[p + w + i] = m[p + i]; }
+                out.push(("dup", m));
+            }
+        }
+    }
+}
+
+fn run_type<T: Serial + Deserial + Gen + PartialEq>(name: &str, r: &mut Rng, n: u64) {
+    for _ in 0..n {
+        let v = T::gen(r);
+        let enc = match guarded(|| to_bytes(&v)) { Ok(e) => e, Err(_) => { println!("{}", json!({"k":"b","t":name,"cls":"valid","in":"","enc_panic":true})); continue; } };
+        // direct oracle on the implementation alone
+        let back = guarded(|| from_bytes::<T>(&enc));
+        let rt = matches!(&back, Ok(Ok(w)) if *w == v);
+        let mut o = probe::<T>(&enc);
+        o["k"] = json!("b"); o["t"] = json!(name); o["cls"] = json!("valid"); o["in"] = json!(hex(&enc)); o["rt"] = json!(rt);
+        println!("{}", o);
+        let mut ms = Vec::new();
+        mutants(r, &enc, &mut ms);
+        for (cls, m) in ms {
+            let mut o = probe::<T>(&m);
+            o["k"] = json!("b"); o["t"] = json!(name); o["cls"] = json!(cls); o["in"] = json!(hex(&m));
+            println!("{}", o);
+        }
+    }
+    // purely random short inputs
+    for _ in 0..(n / 2).max(2) {
+        let len = r.below(24) as usize;
+        let m: Vec<u8> = if r.chance(1, 2) { r.bytes(len) } else { (0..len).map(|_| *r.pick(&[0u8, 1, 2, 3, 255])).collect() };
+        let mut o = probe::<T>(&m);
+        o["k"] = json!("b"); o["t"] = json!(name); o["cls"] = json!("random"); o["in"] = json!(hex(&m));
+        println!("{}", o);
+    }
+}
+
+fn hand_bytes<T: Serial + Deserial>(name: &str, cls: &'static str, m: &[u8]) {
+    let mut o = probe::<T>(m);
+    o["k"] = json!("b"); o["t"] = json!(name); o["cls"] = json!(cls); o["in"] = json!(hex(m));
+    println!("{}", o);
+}
+
+fn bytes_mode(seed: u64, n: u64) {
+    let mut r = Rng::new(seed);
+    macro_rules! ty { ($name:expr, $t:ty) => { run_type::<$t>($name, &mut r, n); }; }
+    ty!("u8", u8); ty!("u16", u16); ty!("u32", u32); ty!("u64", u64); ty!("u128", u128);
+    ty!("i8", i8); ty!("i16", i16); ty!("i32", i32); ty!("i64", i64); ty!("i128", i128);
+    ty!("bool", bool);
+    ty!("pair_u8_u16", (u8, u16)); ty!("triple_u64_bool_u32", (u64, bool, u32));
+    ty!("opt_u32", Option<u32>); ty!("opt_opt_u8", Option<Option<u8>>); ty!("opt_vec_u16", Option<Vec<u16>>);
+    ty!("vec_u8", Vec<u8>); ty!("vec_u16", Vec<u16>); ty!("vec_bool", Vec<bool>); ty!("vec_u128", Vec<u128>);
+    ty!("vec_vec_u8", Vec<Vec<u8>>); ty!("vec_pair_u8_u32", Vec<(u8, u32)>); ty!("vec_opt_u8", Vec<Option<u8>>);
+    ty!("string", String); ty!("vec_string", Vec<String>);
+    ty!("set_u8", BTreeSet<u8>); ty!("set_u32", BTreeSet<u32>); ty!("map_u8_u16", BTreeMap<u8, u16>); ty!("map_u64_vec_u8", BTreeMap<u64, Vec<u8>>);
+    ty!("hashset_u16", HSetU16); ty!("hashmap_u8_u8", HMapU8U8);
+    ty!("ordset32_u32", OrdSet32U32); ty!("ordset8_u8", OrdSet8U8); ty!("ordmap8_u8_u16", OrdMap8U8U16); ty!("ordmap16_u64_bool", OrdMap16U64Bool);
+    ty!("unordset16_u16", UnordSet16U16); ty!("unordmap8_u8_u8", UnordMap8U8U8);
+    ty!("nolenset_u16", NoLenSetU16); ty!("nolenmap_u32_u8", NoLenMapU32U8);
+    ty!("vec8_u16", Vec8U16); ty!("vec64_u8", Vec64U8); ty!("str16", Str16);
+    ty!("bytes32", [u8; 32]);
+    ty!("amount", Amount); ty!("timestamp", Timestamp); ty!("duration", Duration);
+    ty!("account_address", AccountAddress); ty!("contract_address", ContractAddress); ty!("address", Address);
+    ty!("hash", hashes::Hash);
+    ty!("account_balance", AccountBalance); ty!("exchange_rate", ExchangeRate); ty!("exchange_rates", ExchangeRates);
+    ty!("threshold", AccountThreshold);
+    ty!("contract_name", OwnedContractName); ty!("receive_name", OwnedReceiveName); ty!("entrypoint_name", OwnedEntrypointName);
+    ty!("parameter", OwnedParameter);
+    ty!("attribute_tag", AttributeTag); ty!("attribute_value", AttributeValue); ty!("policy", Pol);
+    ty!("chain_metadata", ChainMd);
+    // hand-written hostile inputs
+    hand_bytes::<Vec<u8>>("vec_u8", "hostile", &[0xff, 0xff, 0xff, 0xff]);
+    hand_bytes::<Vec<u8>>("vec_u8", "hostile", &[0xff, 0xff, 0xff, 0x7f, 1, 2, 3]);
+    hand_bytes::<Vec<u128>>("vec_u128", "hostile", &[0xff, 0xff, 0xff, 0xff, 1]);
+    hand_bytes::<Vec<Vec<u8>>>("vec_vec_u8", "hostile", &[0xff, 0xff, 0xff, 0xff, 0xff, 0xff, 0xff, 0xff]);
+    hand_bytes::<Vec<Vec<u8>>>("vec_vec_u8", "hostile", &[2, 0, 0, 0, 0xff, 0xff, 0xff, 0xff, 0xff, 0xff, 0xff, 0xff]);
+    hand_bytes::<String>("string", "hostile", &[0xff, 0xff, 0xff, 0xff, b'a']);
+    hand_bytes::<Vec64U8>("vec64_u8", "hostile", &[0xff, 0xff, 0xff, 0xff, 0xff, 0xff, 0xff, 0x7f]);
+    hand_bytes::<Vec64U8>("vec64_u8", "hostile", &[0, 0, 0, 0, 1, 0, 0, 0, 7]);
+    hand_bytes::<BTreeSet<u32>>("set_u32", "hostile", &[0xff, 0xff, 0xff, 0xff, 1, 0, 0, 0]);
+    hand_bytes::<BTreeMap<u8, u16>>("map_u8_u16", "hostile", &[0xff, 0xff, 0xff, 0xff, 1, 0, 0]);
+    hand_bytes::<OrdSet32U32>("ordset32_u32", "hostile", &[0xff, 0xff, 0xff, 0xff]);
+    hand_bytes::<Pol>("policy", "hostile", &[1, 0, 0, 0, 2, 0, 0, 0, 0, 0, 0, 0, 3, 0, 0, 0, 0, 0, 0, 0, 0xff, 0xff]);
+    hand_bytes::<Pol>("policy", "hostile", &[1, 0, 0, 0, 2, 0, 0, 0, 0, 0, 0, 0, 3, 0, 0, 0, 0, 0, 0, 0, 0xff, 0xff, 7, 32]);
+    hand_bytes::<OwnedParameter>("parameter", "hostile", &[0xff, 0xff, 1, 2, 3]);
+    hand_bytes::<OwnedContractName>("contract_name", "hostile", &[0xff, 0xff, b'i', b'n', b'i', b't', b'_']);
+    // order: strictly ascending / equal / descending keys
+    hand_bytes::<OrdSet8U8>("ordset8_u8", "order", &[3, 1, 2, 3]);
+    hand_bytes::<OrdSet8U8>("ordset8_u8", "order", &[3, 1, 2, 2]);
+    hand_bytes::<OrdSet8U8>("ordset8_u8", "order", &[3, 1, 3, 2]);
+    hand_bytes::<OrdSet8U8>("ordset8_u8", "order", &[2, 2, 1]);
+    hand_bytes::<OrdMap8U8U16>("ordmap8_u8_u16", "order", &[2, 1, 0, 0, 2, 0, 0]);
+    hand_bytes::<OrdMap8U8U16>("ordmap8_u8_u16", "order", &[2, 1, 0, 0, 1, 1, 0]);
+    hand_bytes::<OrdMap8U8U16>("ordmap8_u8_u16", "order", &[2, 2, 0, 0, 1, 0, 0]);
+    hand_bytes::<BTreeSet<u8>>("set_u8", "order", &[3, 0, 0, 0, 3, 1, 2]);
+    hand_bytes::<BTreeSet<u8>>("set_u8", "order", &[3, 0, 0, 0, 3, 1, 3]);
+    hand_bytes::<NoLenSetU16>("nolenset_u16", "order", &[2, 0, 1, 1, 0]);   // 256 then 1: descending
+    hand_bytes::<NoLenSetU16>("nolenset_u16", "order", &[2, 1, 0, 0, 1]);   // 1 then 256: ascending
+}
+
+// ------------------------------------------------------------------ text side
+fn cps(s: &str) -> Vec<u32> { s.chars().map(|c| c as u32).collect() }
+
+fn res_json<T, E>(r: Result<Result<T, E>, String>, f: impl Fn(T) -> Value, e: impl Fn(E) -> String) -> Value {
+    match r { Err(_) => json!("PANIC"), Ok(Ok(v)) => json!({"ok": f(v)}), Ok(Err(x)) => json!({"err": e(x)}) }
+}
+fn amount_parse(s: &str) -> Value {
+    res_json(guarded(|| Amount::from_str(s)), |a| json!(a.micro_ccd.to_string()), |e| format!("{:?}", e))
+}
+fn duration_parse(s: &str) -> Value {
+    res_json(guarded(|| Duration::from_str(s)), |d| json!(d.millis().to_string()),
+        |e| match e { ParseDurationError::MissingUnit => "MissingUnit".into(), ParseDurationError::FailedParsingNumber => "FailedParsingNumber".into(), ParseDurationError::InvalidUnit(_) => "InvalidUnit".into() })
+}
+fn caddr_parse(s: &str) -> Value {
+    res_json(guarded(|| ContractAddress::from_str(s)), |a| json!([a.index.to_string(), a.subindex.to_string()]),
+        |e| match e {
+            ContractAddressParseError::MissingStartBracket => "MissingStartBracket".into(),
+            ContractAddressParseError::MissingEndBracket => "MissingEndBracket".into(),
+            ContractAddressParseError::ParseIndexIntError(_) => "ParseIndex".into(),
+            ContractAddressParseError::ParseSubIndexIntError(_) => "ParseSubIndex".into(),
+            ContractAddressParseError::NoComma => "NoComma".into() })
+}
+fn ts_parse(s: &str) -> Value {
+    res_json(guarded(|| Timestamp::from_str(s)), |t| json!(t.millis.to_string()),
+        |e| match e { ParseTimestampError::ParseError(_) => "ParseError".into(), ParseTimestampError::BeforeUnixEpoch => "BeforeUnixEpoch".into() })
+}
+fn cname_check(s: &str) -> Value {
+    match guarded(|| ContractName::is_valid_contract_name(s)) { Err(_) => json!("PANIC"), Ok(Ok(())) => json!({"ok": true}), Ok(Err(e)) => json!({"err": format!("{:?}", e)}) }
+}
+fn rname_check(s: &str) -> Value {
+    match guarded(|| ReceiveName::is_valid_receive_name(s)) { Err(_) => json!("PANIC"), Ok(Ok(())) => json!({"ok": true}), Ok(Err(e)) => json!({"err": format!("{:?}", e)}) }
+}
+fn ename_check(s: &str) -> Value {
+    match guarded(|| is_valid_entrypoint_name(s)) { Err(_) => json!("PANIC"), Ok(Ok(())) => json!({"ok": true}), Ok(Err(e)) => json!({"err": format!("{:?}", e)}) }
+}
+
+fn emit_print(t: &str, v: Value, printed: &str, back: Value, json_rt: Option<bool>) {
+    println!("{}", json!({"k":"p","t":t,"v":v,"s":cps(printed),"back":back,"json_rt":json_rt}));
+}
+fn emit_parse(t: &str, cls: &str, s: &str, r: Value) {
+    println!("{}", json!({"k":"s","t":t,"cls":cls,"s":cps(s),"txt":s,"r":r}));
+}
+
+/// near-miss mutants of a string
+fn str_mutants(r: &mut Rng, s: &str, alphabet: &[char]) -> Vec<String> {
+    let cs: Vec<char> = s.chars().collect();
+    let mut out = Vec::new();
+    if !cs.is_empty() {
+        let p = r.below(cs.len() as u64) as usize;
+        let mut m = cs.clone(); m.remove(p); out.push(m.iter().collect());
+        let mut m = cs.clone(); m[p] = *r.pick(alphabet); out.push(m.iter().collect());
+        let mut m = cs.clone(); m.insert(p, *r.pick(alphabet)); out.push(m.iter().collect());
+        let mut m = cs.clone(); m.insert(p, cs[p]); out.push(m.iter().collect());
+    }
+    let mut m = cs.clone(); m.push(*r.pick(alphabet)); out.push(m.iter().collect());
+    let mut m = cs.clone(); m.insert(0, *r.pick(alphabet)); out.push(m.iter().collect());
+    out
+}
+
+const WS: [char; 8] = [' ', '\t', '\n', '\u{a0}', '\u{3000}', '\u{2003}', '\r', '\u{85}'];
+
+fn text_mode(seed: u64, n: u64) {
+    let mut r = Rng::new(seed);
+    // ---------------- Amount
+    let amount_vals: Vec<u64> = vec![0, 1, 9, 10, 999_999, 1_000_000, 1_000_001, 1_999_999, 10_000_000, 100_000, 123_400, 1_000_010,
+        u64::MAX, u64::MAX - 1, 18_446_744_073_709_000_000, 18_446_744_073_708_999_999, 18_446_744_073_709_551_610, 1u64 << 63, (1u64 << 63) - 1];
+    let mut avs = amount_vals.clone();
+    for _ in 0..n { avs.push(r.u64_edge()); avs.push(r.below(3_000_000)); avs.push(r.below(1000) * 1_000_000 + *r.pick(&[0u64, 1, 10, 100, 1000, 10_000, 100_000, 500_000, 999_999, 90_000, 9])); }
+    for m in avs {
+        let a = Amount::from_micro_ccd(m);
+        let s = a.to_string();
+        emit_print("amount", json!(m.to_string()), &s, amount_parse(&s), None);
+    }
+    let amount_hand = ["", "0", "0.", ".0", "0.0", "00", "00.1", "01", "01.5", "1", "13", "1.", "1.5", "1.50", "1.500000", "1.5000000", "0.1234567", "0.000000", "0.0000000", "0.000001", "0.0000001",
+        "1..2", "1.2.3", "1,5", "1e5", " 1", "1 ", "+1", "-1", "1.-5", "1.+5", "١", "1.١", "１", "0x10", "1_000", "18446744073709.551615", "18446744073709.551616", "18446744073709.55161", "18446744073709.6",
+        "18446744073710", "18446744073709", "18446744073709.", "99999999999999999999", "1844674407370955161", "18446744073709551615", "18446744073709551616", "184467440737095.51615", "0.9", "9.999999", "9.9999999", "a", "1a", "1.a", "0a", "0.0a"];
+    for s in amount_hand { emit_parse("amount", "hand", s, amount_parse(s)); }
+    let dig = ['0', '1', '5', '9', '.', '+', '-', ' ', 'a', ',', '٣'];
+    for _ in 0..n * 3 {
+        // grammar: int part, optional fraction of 0..8 digits
+        let ip = match r.below(5) { 0 => "0".to_string(), 1 => r.below(10).to_string(), 2 => r.below(1_000_000).to_string(), 3 => (18_446_744_073_700 + r.below(12)).to_string(), _ => r.u64_edge().to_string() };
+        let fl = r.below(9);
+        let s = if r.chance(1, 4) { ip.clone() } else { format!("{}.{}", ip, (0..fl).map(|_| (b'0' + r.below(10) as u8) as char).collect::<String>()) };
+        emit_parse("amount", "grammar", &s, amount_parse(&s));
+        if r.chance(1, 2) { for m in str_mutants(&mut r, &s, &dig) { emit_parse("amount", "mutant", &m, amount_parse(&m)); } }
+    }
+    // ---------------- Duration
+    let mut dvs: Vec<u64> = vec![0, 1, 999, 1000, 1001, 59_999, 60_000, 3_599_999, 3_600_000, 86_399_999, 86_400_000, 86_400_001, 90_061_001, u64::MAX, u64::MAX - 1, 1 << 63];
+    for _ in 0..n { dvs.push(r.u64_edge()); dvs.push(r.below(200_000_000)); }
+    for m in dvs {
+        let d = Duration::from_millis(m);
+        let s = d.to_string();
+        let jr = guarded(|| serde_json::from_str::<Duration>(&serde_json::to_string(&d).unwrap()).ok() == Some(d)).unwrap_or(false);
+        emit_print("duration", json!(m.to_string()), &s, duration_parse(&s), Some(jr));
+    }
+    let dur_hand = ["", " ", "1d", "1h", "1m", "1s", "1ms", "1d 2h 3m 4s 5ms", "10d 1h 2m 3s 4s", "5ms 4s 3m 2h 1d", "1d2h", "1 d", "d", "ms", "1", "12", "1x", "1us", "1S", "1D", "1min", "1sec", "1 ms", "1.5s", "+5s", "-5s",
+        "007s", "0d", "00ms", "1d  2h", " 1d ", "\t1d\n2h", "1d\u{a0}2h", "1d\u{3000}2h", "1d\u{200b}2h", "1d,2h", "1s 1", "1s x", "x 1s", "1s 1x", "99999999999999999999s", "18446744073709551616ms", "18446744073709551615ms", "18446744073709551615ms 0ms",
+        "1٣s", "١s", "1ｓ", "1m s", "1mss", "1sm", "1hd", "213503982334d", "213503982334d 14h 25m 51s 615ms"];
+    for s in dur_hand { emit_parse("duration", "hand", s, duration_parse(s)); }
+    // outside the claim (O4): components or sums that overflow u64
+    let dur_o4 = ["213503982335d", "18446744073709551615ms 1ms", "18446744073709551615s", "5124095576030432h", "213503982334d 14h 25m 51s 616ms", "307445734561825861m", "18446744073709552s", "9223372036854775808ms 9223372036854775808ms"];
+    for s in dur_o4 { emit_parse("duration", "o4", s, duration_parse(s)); }
+    let units = ["ms", "s", "m", "h", "d"];
+    let bad_units = ["", "us", "S", "min", "hs", "dd", "msd", "µs", "M"];
+    let dch = ['0', '9', 's', 'm', 'h', 'd', ' ', '+', '.', 'x', '\u{a0}'];
+    for i in 0..n * 3 {
+        // every subset of units (bitmask), random order, random whitespace, mostly representable
+        let mask = (i % 32) as u32;
+        let mut ms: Vec<String> = Vec::new();
+        for (j, u) in units.iter().enumerate() {
+            if mask & (1 << j) != 0 {
+                let v = match r.below(6) { 0 => 0, 1 => r.below(100), 2 => r.below(100_000), 3 => r.below(1u64 << 33), _ => r.below(1000) };
+                let num = if r.chance(1, 8) { format!("00{}", v) } else { v.to_string() };
+                ms.push(format!("{}{}", num, u));
+            }
+        }
+        if r.chance(1, 6) { ms.push(format!("{}{}", r.below(100), r.pick(&bad_units))); }
+        if r.chance(1, 10) { ms.push(format!("{}{}", r.below(50), r.pick(&units))); }
+        // shuffle
+        for k in (1..ms.len()).rev() { let j = r.below(k as u64 + 1) as usize; ms.swap(k, j); }
+        let mut s = String::new();
+        if r.chance(1, 5) { s.push(*r.pick(&WS)); }
+        for (k, m) in ms.iter().enumerate() {
+            if k > 0 { s.push(if r.chance(2, 3) { ' ' } else { *r.pick(&WS) }); if r.chance(1, 6) { s.push(*r.pick(&WS)); } }
+            s.push_str(m);
+        }
+        if r.chance(1, 5) { s.push(*r.pick(&WS)); }
+        emit_parse("duration", "grammar", &s, duration_parse(&s));
+        if r.chance(1, 3) { for m in str_mutants(&mut r, &s, &dch) { emit_parse("duration", "mutant", &m, duration_parse(&m)); } }
+    }
+    // ---------------- ContractAddress
+    let mut cvs: Vec<(u64, u64)> = vec![(0, 0), (1, 0), (0, 1), (u64::MAX, u64::MAX), (u64::MAX, 0), (10, 10), (1 << 63, 9)];
+    for _ in 0..n { cvs.push((r.u64_edge(), r.u64_edge())); }
+    for (i, j) in cvs {
+        let a = ContractAddress::new(i, j);
+        let s = a.to_string();
+        emit_print("contract_address", json!([i.to_string(), j.to_string()]), &s, caddr_parse(&s), None);
+        // Address parses it as a contract address as well
+        let adr = guarded(|| Address::from_str(&s).ok() == Some(Address::Contract(a)) && Address::Contract(a).to_string() == s).unwrap_or(false);
+        if !adr { println!("{}", json!({"k":"oracle_fail","t":"address_contract","s":s})); }
+    }
+    let ca_hand = ["", "<", ">", "<>", "<,>", "<1,2>", "<1,2", "1,2>", "<1 ,2>", "< 1,2>", "<1, 2>", "<1,2> ", " <1,2>", "<+1,+2>", "<-1,2>", "<001,002>", "<1,2,3>", "<1;2>", "<1>", "<1,>", "<,2>", "<<1,2>", "<1,2>>",
+        "<18446744073709551615,18446744073709551615>", "<18446744073709551616,0>", "<0,18446744073709551616>", "<1,2>x", "x<1,2>", "<١,2>", "<1,٢>", "＜1,2＞", "<1.0,2>", "<0x1,2>", "<+,1>", "<1,+>", "<1,2>\n"];
+    for s in ca_hand { emit_parse("contract_address", "hand", s, caddr_parse(s)); }
+    let cch = ['<', '>', ',', '0', '9', '+', ' ', '-', 'x'];
+    for _ in 0..n * 2 {
+        let s = format!("<{},{}>", r.u64_edge(), r.u64_edge());
+        for m in str_mutants(&mut r, &s, &cch) { emit_parse("contract_address", "mutant", &m, caddr_parse(&m)); }
+    }
+    // ---------------- Timestamp
+    const DAY: u64 = 86_400_000;
+    let y10k: u64 = 253_402_300_800_000;
+    let mut tvs: Vec<u64> = vec![0, 1, 999, 1000, 1001, 59_999, 60_000, 3_599_999, 3_600_000, DAY - 1, DAY, DAY + 1,
+        951_782_400_000 - 1, 951_782_400_000, 951_782_400_000 + DAY - 1, 951_782_400_000 + DAY,          // 2000-02-29
+        4_107_456_000_000 - 1, 4_107_456_000_000, 4_107_456_000_000 + DAY,                                 // 2100-02-28 / 03-01
+        946_684_799_999, 946_684_800_000, 978_307_199_999, 978_307_200_000,                                 // year ends 1999/2000
+        68_255_999_999, 68_256_000_000, 68_256_000_000 + DAY,                                               // 1972-02-29
+        13_574_563_200_000 - 1, 13_574_563_200_000,                                                         // 2400-02-29
+        y10k - 1, y10k, y10k + 1, y10k - DAY, 8_210_266_876_799_999, 8_210_266_876_800_000, 8_210_298_412_799_999, 8_210_298_412_800_000,
+        (1u64 << 63) - 1, 1u64 << 63, (1u64 << 63) + 1, u64::MAX, u64::MAX - 1, u64::MAX - 8_000_000_000_000_000, u64::MAX - 62_135_596_800_000, u64::MAX - 999, 1u64 << 62];
+    for _ in 0..n * 2 {
+        tvs.push(r.below(y10k)); tvs.push(r.u64_edge()); tvs.push(r.below(4_200_000_000_000));
+        tvs.push((1u64 << 63).wrapping_add(r.below(1u64 << 53)).wrapping_sub(1u64 << 52));
+        tvs.push(u64::MAX - r.below(9_000_000_000_000_000));
+        // first / last millisecond of a random day, random year boundary
+        let d = r.below(2_932_897); tvs.push(d * DAY); tvs.push(d * DAY + DAY - 1);
+    }
+    for m in tvs {
+        let t = Timestamp::from_timestamp_millis(m);
+        let s = match guarded(|| t.to_string()) { Ok(s) => s, Err(_) => "PANIC".to_string() };
+        let jr = guarded(|| serde_json::from_str::<Timestamp>(&serde_json::to_string(&t).unwrap()).ok() == Some(t)).unwrap_or(false);
+        emit_print("timestamp", json!(m.to_string()), &s, ts_parse(&s), Some(jr));
+    }
+    let ts_hand = ["", "0", "1", "+5", "-5", "007", "18446744073709551615", "18446744073709551616", "1.5", "1e3", " 1", "1 ",
+        "1970-01-01T00:00:00Z", "1970-01-01T00:00:00z", "1970-01-01t00:00:00Z", "1970-01-01 00:00:00Z", "1970-01-01_00:00:00Z", "1970-01-01T00:00:00", "1970-01-01T00:00:00+00:00", "1970-01-01T00:00:00-00:00",
+        "1970-01-01T00:00:00+0000", "1970-01-01T00:00:00+00", "1970-01-01T00:00:00 +00:00", "1970-01-01T00:00:00+00:00 ", " 1970-01-01T00:00:00Z", "1970-01-01T00:00:00\u{2212}00:00", "1970-01-01T01:00:00\u{2212}01:00",
+        "1970-01-01T00:00:00+00:01", "1970-01-01T00:00:00-00:01", "1969-12-31T23:59:59.999Z", "1969-12-31T23:59:59.999-00:01", "1969-12-31T23:00:00-01:00", "1970-01-01T00:59:59+01:00", "1970-01-01T01:00:00+01:00",
+        "1970-01-01T23:59:00+23:59", "1970-01-01T23:58:59+23:59", "1970-01-01T00:00:00+24:00", "1970-01-01T00:00:00+23:60", "1970-01-01T00:00:00+99:00", "1969-12-31T00:01:00-23:59", "1969-12-31T00:00:59-23:59",
+        "1970-01-01T00:00:00.Z", "1970-01-01T00:00:00.0Z", "1970-01-01T00:00:00.001Z", "1970-01-01T00:00:00.0009Z", "1970-01-01T00:00:00.0019999999999Z", "1970-01-01T00:00:00.123456789Z", "1970-01-01T00:00:00.1234567891Z",
+        "1970-01-01T00:00:00,5Z", "1970-01-01T00:00:60Z", "1970-01-01T00:00:60.5Z", "1970-01-01T23:59:60Z", "1970-01-01T00:00:61Z", "1970-01-01T00:60:00Z", "1970-01-01T24:00:00Z", "1970-01-01T23:59:59.999Z",
+        "1970-1-01T00:00:00Z", "1970-01-1T00:00:00Z", "70-01-01T00:00:00Z", "01970-01-01T00:00:00Z", "+1970-01-01T00:00:00Z", "-1970-01-01T00:00:00Z", "1970-00-01T00:00:00Z", "1970-13-01T00:00:00Z", "1970-01-00T00:00:00Z", "1970-01-32T00:00:00Z",
+        "1970-02-29T00:00:00Z", "1972-02-29T00:00:00Z", "1972-02-30T00:00:00Z", "2000-02-29T00:00:00Z", "2100-02-29T00:00:00Z", "1900-02-29T00:00:00Z", "2400-02-29T00:00:00Z", "1970-04-31T00:00:00Z", "1970-06-31T00:00:00Z", "1970-09-31T00:00:00Z", "1970-11-31T00:00:00Z", "1970-12-31T00:00:00Z",
+        "0000-01-01T00:00:00Z", "0000-02-29T00:00:00Z", "0000-03-01T00:00:00Z", "0001-01-01T00:00:00Z", "9999-12-31T23:59:59.999Z", "9999-12-31T23:59:59.999+00:00", "9999-12-31T23:59:60.999-23:59", "10000-01-01T00:00:00Z", "+10000-01-01T00:00:00+00:00",
+        "1970-01-01T00:00:00Zx", "1970-01-01T00:00:00ZZ", "1970-01-01T0:00:00Z", "1970-01-01T00:0:00Z", "1970-01-01T00:00:0Z", "1970-01-01T00-00-00Z", "1970/01/01T00:00:00Z", "1970-01-01T00:00Z", "1970-01-01", "1970-01-01T",
+        "１970-01-01T00:00:00Z", "1970-01-01T00:00:00+٠0:00", "1970-01-01T00:00:00+0:00", "1970-01-01T00:00:00+00:0", "1970-01-01T00:00:00+00:000", "2262-04-11T23:47:16.854Z", "2262-04-11T23:47:16.855Z"];
+    for s in ts_hand { emit_parse("timestamp", "hand", s, ts_parse(s)); }
+    let tch = ['0', '1', '9', '-', ':', 'T', 'Z', '+', '.', ' ', '6', 't', 'z', 'x'];
+    for _ in 0..n * 4 {
+        // grammar with fields slightly outside their ranges
+        let y = match r.below(6) { 0 => 1970, 1 => 1969, 2 => r.below(10_000), 3 => 1968 + r.below(140), 4 => *r.pick(&[0u64, 1, 1600, 1900, 2000, 2100, 2400, 9999]), _ => 1970 + r.below(60) };
+        let mo = match r.below(8) { 0 => *r.pick(&[0u64, 13]), 1 => 2, _ => 1 + r.below(12) };
+        let d = match r.below(6) { 0 => *r.pick(&[0u64, 28, 29, 30, 31, 32]), _ => 1 + r.below(28) };
+        let h = match r.below(10) { 0 => 24, 1 => 23, _ => r.below(24) };
+        let mi = match r.below(12) { 0 => 60, 1 => 59, _ => r.below(60) };
+        let sec = match r.below(10) { 0 => 60, 1 => 61, 2 => 59, _ => r.below(60) };
+        let sep = match r.below(8) { 0 => 't', 1 => ' ', 2 => *r.pick(&['_', 'x', '-']), _ => 'T' };
+        let frac = match r.below(6) { 0 => String::new(), 1 => ".".to_string(), 2 => format!(".{:03}", r.below(1000)), 3 => { let k = 1 + r.below(12); format!(".{}", (0..k).map(|_| (b'0' + r.below(10) as u8) as char).collect::<String>()) }, _ => String::new() };
+        let off = match r.below(10) {
+            0 => "Z".to_string(), 1 => "z".to_string(), 2 => "+00:00".to_string(), 3 => String::new(),
+            4 => format!("{}{:02}:{:02}", r.pick(&["+", "-", "\u{2212}"]), r.below(25), r.below(61)),
+            5 => format!("{}{:02}{:02}", r.pick(&["+", "-"]), r.below(24), r.below(60)),
+            6 => format!("{}{:02}", r.pick(&["+", "-"]), r.below(24)),
+            _ => format!("{}{:02}:{:02}", r.pick(&["+", "-"]), r.below(24), r.below(60)),
+        };
+        let s = format!("{:04}-{:02}-{:02}{}{:02}:{:02}:{:02}{}{}", y, mo, d, sep, h, mi, sec, frac, off);
+        emit_parse("timestamp", "grammar", &s, ts_parse(&s));
+        if r.chance(1, 3) { for m in str_mutants(&mut r, &s, &tch) { emit_parse("timestamp", "mutant", &m, ts_parse(&m)); } }
+    }
+    // ---------------- names
+    let name_hand_c = ["", "init", "init_", "init_a", "Init_a", "init-a", "xinit_a", " init_a", "init_a ", "init_a.b", "init_.", "init_a b", "init_é", "init_a\u{7f}", "init_a\n", "init_!\"#$%&'()*+,-/:;<=>?@[\\]^_`{|}~", "init_0129AZaz", "init_\u{0}"];
+    for s in name_hand_c { emit_parse("contract_name", "hand", s, cname_check(s)); }
+    let name_hand_r = ["", ".", "a.b", "ab", "a.", ".b", "a..b", "a.b.c", "a b.c", "é.b", "a.b\n", "init_a.b", "a\u{7f}.b", "a.\u{80}"];
+    for s in name_hand_r { emit_parse("receive_name", "hand", s, rname_check(s)); }
+    let name_hand_e = ["", "a", ".", "a.b", "a b", "é", "a\u{7f}", "~", "!", " ", "\t"];
+    for s in name_hand_e { emit_parse("entrypoint_name", "hand", s, ename_check(s)); }
+    let nch = ['a', 'Z', '0', '.', '_', ' ', '~', '!', '\u{7f}', 'é', '\u{20ac}', '\u{1f600}', '\n'];
+    for _ in 0..n * 2 {
+        // lengths around the limits; an occasional multi-byte or forbidden character
+        let len = *r.pick(&[0usize, 1, 10, 93, 94, 95, 96, 97, 98, 99, 100, 101]);
+        let mut body: Vec<char> = name_chars(&mut r, len, false).chars().collect();
+        let k = r.below(5);
+        if k == 0 && !body.is_empty() { let p = r.below(body.len() as u64) as usize; body[p] = *r.pick(&nch); }
+        let body: String = body.into_iter().collect();
+        let c = format!("init_{}", body);
+        emit_parse("contract_name", "grammar", &c, cname_check(&c));
+        emit_parse("entrypoint_name", "grammar", &body, ename_check(&body));
+        let mut rb: Vec<char> = body.chars().collect();
+        if !rb.is_empty() && r.chance(5, 6) { let p = r.below(rb.len() as u64) as usize; rb[p] = '.'; }
+        let rn: String = rb.into_iter().collect();
+        emit_parse("receive_name", "grammar", &rn, rname_check(&rn));
+        let l2 = *r.pick(&[0usize, 1, 4, 5, 6]); let rn2 = format!("{}.{}", body, name_chars(&mut r, l2, true));
+        emit_parse("receive_name", "grammar", &rn2, rname_check(&rn2));
+        if r.chance(1, 3) {
+            for m in str_mutants(&mut r, &c, &nch) { emit_parse("contract_name", "mutant", &m, cname_check(&m)); }
+            for m in str_mutants(&mut r, &rn, &nch) { emit_parse("receive_name", "mutant", &m, rname_check(&m)); emit_parse("entrypoint_name", "mutant", &m, ename_check(&m)); }
+        }
+        // print/parse of accepted names: Display is the name itself; construct composes names
+        if let Ok(cn) = OwnedContractName::new(c.clone()) {
+            let ok = cn.to_string() == c && OwnedContractName::new(cn.to_string()).ok() == Some(cn.clone())
+                && serde_json::from_str::<OwnedContractName>(&serde_json::to_string(&cn).unwrap()).ok() == Some(cn.clone());
+            if !ok { println!("{}", json!({"k":"oracle_fail","t":"contract_name_print_parse","s":c})); }
+            let l3 = *r.pick(&[0usize, 1, 5, 50, 99]);
+            if let Ok(en) = OwnedEntrypointName::new(name_chars(&mut r, l3, true)) {
+                let built = guarded(|| OwnedReceiveName::construct(cn.as_contract_name(), en.as_entrypoint_name()));
+                let s = format!("{}.{}", &c[5..], en);
+                let v = match &built { Err(_) => json!("PANIC"), Ok(Ok(x)) => json!({"ok": cps(&x.to_string())}), Ok(Err(e)) => json!({"err": format!("{:?}", e)}) };
+                println!("{}", json!({"k":"construct","c":cps(&c),"e":cps(&en.to_string()),"expect":cps(&s),"r":v}));
+                if let Ok(Ok(x)) = built {
+                    let rn = x.as_receive_name();
+                    let parts_ok = rn.contract_name() == &c[5..] && rn.entrypoint_name().to_string() == en.to_string()
+                        && OwnedReceiveName::from_str(&x.to_string()).ok() == Some(x.clone());
+                    if !parts_ok { println!("{}", json!({"k":"oracle_fail","t":"receive_name_parts","s":x.to_string()})); }
+                }
+            }
+        }
+    }
+    // ---------------- AccountAddress (base58check): implementation-only oracle
+    let b58 = "123456789ABCDEFGHJKLMNPQRSTUVWXYZabcdefghijkmnopqrstuvwxyz".chars().collect::<Vec<_>>();
+    let mut acc_n = 0u64; let mut acc_mut = 0u64; let mut acc_mut_acc = 0u64;
+    for _ in 0..n * 4 {
+        let a = AccountAddress::gen(&mut r);
+        let s = a.to_string();
+        let back = guarded(|| AccountAddress::from_str(&s).ok());
+        let jr = guarded(|| serde_json::from_str::<AccountAddress>(&serde_json::to_string(&a).unwrap()).ok() == Some(a)).unwrap_or(false);
+        let adr = guarded(|| Address::from_str(&s).ok() == Some(Address::Account(a))).unwrap_or(false);
+        acc_n += 1;
+        if back != Ok(Some(a)) || !jr || !adr || s.len() != 50 { println!("{}", json!({"k":"oracle_fail","t":"account_address_print_parse","s":s,"bytes":hex(&a.0)})); }
+        // mutants: must be rejected, or parse to an address that prints the mutant (canonical text)
+        for m in str_mutants(&mut r, &s, &b58) {
+            acc_mut += 1;
+            match guarded(|| AccountAddress::from_str(&m)) {
+                Err(_) => println!("{}", json!({"k":"oracle_fail","t":"account_address_panic","s":m})),
+                Ok(Ok(b)) => { acc_mut_acc += 1; if b.to_string() != m { println!("{}", json!({"k":"oracle_fail","t":"account_address_noncanonical_text","s":m})); } }
+                Ok(Err(_)) => {}
+            }
+        }
+    }
+    println!("{}", json!({"k":"stat","t":"account_address","printed":acc_n,"mutants":acc_mut,"mutants_accepted":acc_mut_acc}));
+}
+
+// ------------------------------------------------------------------ arithmetic
+fn opt(v: Result<Option<u64>, String>) -> Value { match v { Err(_) => json!("PANIC"), Ok(None) => json!(null), Ok(Some(x)) => json!(x.to_string()) } }
+fn pan(v: Result<u64, String>) -> Value { match v { Err(_) => json!("PANIC"), Ok(x) => json!(x.to_string()) } }
+
+fn arith_mode(seed: u64, n: u64) {
+    let mut r = Rng::new(seed);
+    for i in 0..n {
+        let x = r.u64_edge();
+        let y = match i % 5 { 0 => u64::MAX - x, 1 => (u64::MAX - x).wrapping_add(1), 2 => x, 3 => x.wrapping_add(1), _ => r.u64_edge() };
+        let e = |op: &str, v: Value| println!("{}", json!({"k":"a","op":op,"x":x.to_string(),"y":y.to_string(),"r":v}));
+        let (ax, ay) = (Amount::from_micro_ccd(x), Amount::from_micro_ccd(y));
+        let (dx, dy) = (Duration::from_millis(x), Duration::from_millis(y));
+        let tx = Timestamp::from_timestamp_millis(x);
+        let ty = Timestamp::from_timestamp_millis(y);
+        e("amount_checked_add", opt(guarded(|| ax.checked_add(ay).map(|a| a.micro_ccd))));
+        e("amount_checked_sub", opt(guarded(|| ax.checked_sub(ay).map(|a| a.micro_ccd))));
+        e("duration_checked_add", opt(guarded(|| dx.checked_add(dy).map(|a| a.millis()))));
+        e("duration_checked_sub", opt(guarded(|| dx.checked_sub(dy).map(|a| a.millis()))));
+        e("timestamp_checked_add", opt(guarded(|| tx.checked_add(dy).map(|a| a.millis))));
+        e("timestamp_checked_sub", opt(guarded(|| tx.checked_sub(dy).map(|a| a.millis))));
+        e("duration_since", opt(guarded(|| tx.duration_since(ty).map(|a| a.millis()))));
+        e("duration_between", pan(guarded(|| tx.duration_between(ty).millis())));
+        e("amount_add", pan(guarded(|| (ax + ay).micro_ccd)));
+        e("amount_sub", pan(guarded(|| (ax - ay).micro_ccd)));
+        let d = match i % 4 { 0 => 0, 1 => 1, 2 => r.below(1000), _ => r.u64_edge() };
+        let qr = guarded(|| ax.quotient_remainder(d));
+        let v = match qr { Err(_) => json!("PANIC"), Ok((q, m)) => json!([q.micro_ccd.to_string(), m.micro_ccd.to_string()]) };
+        println!("{}", json!({"k":"a","op":"quotient_remainder","x":x.to_string(),"y":d.to_string(),"r":v}));
+        let m = match i % 3 { 0 => r.below(1 << 20), 1 => 1, _ => r.u64_edge() };
+        println!("{}", json!({"k":"a","op":"amount_mul","x":x.to_string(),"y":m.to_string(),"r":pan(guarded(|| (ax * m).micro_ccd))}));
+        // exchange rates
+        let num = match i % 3 { 0 => 1 + r.below(1 << 40), 1 => r.u64_edge().max(1), _ => 1 + r.below(100_000) };
+        let den = match i % 4 { 0 => 1, 1 => 1 + r.below(1 << 30), 2 => r.u64_edge().max(1), _ => 1 + r.below(1000) };
+        let rates = ExchangeRates { euro_per_energy: ExchangeRate::new_unchecked(1, 1), micro_ccd_per_euro: ExchangeRate::new_unchecked(num, den) };
+        let c = match i % 3 { 0 => r.below(1 << 32), 1 => r.u64_edge(), _ => r.below(100_000) };
+        println!("{}", json!({"k":"a","op":"euro_cent_to_amount","num":num.to_string(),"den":den.to_string(),"x":c.to_string(),"r":pan(guarded(|| rates.convert_euro_cent_to_amount(c).micro_ccd))}));
+        println!("{}", json!({"k":"a","op":"amount_to_euro_cent","num":num.to_string(),"den":den.to_string(),"x":c.to_string(),"r":pan(guarded(|| rates.convert_amount_to_euro_cent(Amount::from_micro_ccd(c))))}));
+    }
+}
+
 fn main() {
-    for m in [0u64, 1, 253402300799999, 253402300800000, 8210266876799999, 8210266876800000, 8210298412799999, 8210298412800000, (1u64<<63)-1, 1u64<<63, u64::MAX, u64::MAX - 8_000_000_000_000_000] {
-        let s = Timestamp::from_timestamp_millis(m).to_string();
-        let p = Timestamp::from_str(&s);
-        println!("{} -> {:?} -> {:?}", m, s, p);
+    quiet_panics();
+    let a: Vec<String> = std::env::args().collect();
+    let mode = a.get(1).map(|s| s.as_str()).unwrap_or("bytes");
+    let seed: u64 = a.get(2).and_then(|s| s.parse().ok()).unwrap_or(1);
+    let n: u64 = a.get(3).and_then(|s| s.parse().ok()).unwrap_or(10);
+    match mode {
+        "bytes" => bytes_mode(seed, n),
+        "text" => text_mode(seed, n),
+        "arith" => arith_mode(seed, n),
+        _ => { eprintln!("usage: c16 bytes|text|arith <seed> <n>"); std::process::exit(2) }
     }
 }
